@@ -92,9 +92,25 @@ class Obligation(object):
         self.assumes   = assumes
         self.about     = about
         self.path_timeout = path_timeout
+        self.custom    = False
 
 
 REGISTRY = collections.OrderedDict()   # module -> [Obligation]
+
+
+def custom_obligation(**kw):
+    """an obligation decided by the harness itself (direct z3 encodings):
+    fn(tier=..., replay=None, **shape) -> {'status': 'confirmed'|'refuted'|
+    'unknown', 'queries': n, 'args': {...} (counterexample, replayable),
+    'why': str, ...}; with replay=<args> it re-executes the real code on the
+    counterexample and raises Violation if it reproduces."""
+    kw.setdefault('params', {})
+    kw.setdefault('twins', ())
+    def deco(fn):
+        fn = obligation(**kw)(fn)
+        fn._obligation.custom = True
+        return fn
+    return deco
 
 
 def obligation(params, shapes=None, partition=None, timeout=None, twins=('main',),
